@@ -952,6 +952,29 @@ int EGLPNUM_TYPENAME_ILLsimplex (
 		}
 	}
 
+	{
+		/* A column whose lower bound exceeds its upper bound: no point satisfies the
+		 * bounds.  ILLfct_set_variable_type classes such a column as fixed and the
+		 * simplex would stop at an "optimal" point outside the bounds, a different
+		 * one for every starting basis.  There is no certificate in the row space
+		 * (the contradiction is between the two bounds of the column):
+		 * ILLsimplex_infcertificate refuses, final_phase stays -1. */
+		int j;
+
+		for (j = 0; j < lp->ncols; j++)
+		{
+			if (EGLPNUM_TYPENAME_EGlpNumIsNeqq (lp->lz[j], EGLPNUM_TYPENAME_NINFTY) &&
+					EGLPNUM_TYPENAME_EGlpNumIsNeqq (lp->uz[j], EGLPNUM_TYPENAME_INFTY) &&
+					EGLPNUM_TYPENAME_EGlpNumIsLess (lp->uz[j], lp->lz[j]))
+			{
+				init_lp_status_info (&(lp->basisstat));
+				lp->basisstat.primal_infeasible = 1;
+				it.solstatus = ILL_LP_SOLVED;
+				goto TERMINATE;
+			}
+		}
+	}
+
 START:
 #if 0
 	if (it.resumeid == SIMPLEX_RESUME_UNSHIFT)
